@@ -165,6 +165,10 @@ def run(ctx):
     _index_builder_records(ctx)
     f = P.fn("carquet_reader_row_group_matches", RS)
     _row_group_matches(ctx, f)
+    ctx.clause("C16.9 the statistics of a column are compared with that column's own type: leaf and schema-element indices are not mixed (rule shared with C02.5)")
+    from ..rules import indexspace
+    nis, ncl = indexspace.check(ctx, P.funcs_in(RS))
+    ctx.floor("C16 classified subscripts in reader/statistics.c", ncl, 2)
 
     from ..rules import sem
     g = P.fn("carquet_reader_filter_row_groups", RS)
